@@ -736,7 +736,8 @@ class CodeGen {
       changed = false;
       // Lay out the program using the current instruction lengths.
       int byteOffset = 0;
-      for (auto &directive : program) {
+      for (size_t i = 0; i < program.size(); i++) {
+        auto &directive = program[i];
         if (directive->getToken() == Token::DATA) {
           // Data must be on 4-byte boundaries.
           if (byteOffset & 0x3) {
@@ -747,7 +748,22 @@ class CodeGen {
         if (directive->getToken() == Token::IDENTIFIER ||
             directive->getToken() == Token::FUNC ||
             directive->getToken() == Token::PROC) {
-          dynamic_cast<Label*>(directive.get())->setLabelValue(byteOffset);
+          // A label that names a data word (the next directive that is not
+          // a label is DATA) takes the word-aligned address of that word.
+          int labelValue = byteOffset;
+          size_t next = i + 1;
+          while (next < program.size() &&
+                 (program[next]->getToken() == Token::IDENTIFIER ||
+                  program[next]->getToken() == Token::FUNC ||
+                  program[next]->getToken() == Token::PROC)) {
+            next++;
+          }
+          if (next < program.size() && program[next]->getToken() == Token::DATA) {
+            labelValue = (byteOffset + 3) & ~3;
+          }
+          dynamic_cast<Label*>(directive.get())->setLabelValue(labelValue);
+          directive->setByteOffset(labelValue);
+          continue;
         }
         directive->setByteOffset(byteOffset);
         byteOffset += directive->getSize();
